@@ -16,7 +16,7 @@ func init() {
 		ID:    "C14",
 		Title: "Transformations are total, pure functions with sound change reports",
 		Explanation: "Decides ownership, change-flag shape and look-ahead guards, not the transformations' identities: R1 every buffer handed to WrapUnsafe (a zero-copy []byte->string cast) is freshly allocated in the same call tree (make, []byte(string), append on such, library result), is never stored elsewhere, the cast is the last use, and buffers received as parameters are fresh at every call site; no transformation writes through its input; " +
-			"R2 change-flag classification for each return of the registered transformations: the flag is the constant true, or false with the input returned unchanged, or a content comparison input != output, or a length comparison only when the output comes from a delete-only call (Trim*, ReplaceAll(_,_,\"\")); flags computed by helper loops are listed as not decided; " +
+			"R2 change-flag classification for each return of the registered transformations: the flag is the constant true, or false with the input returned unchanged, or a content comparison input != output, or a length comparison only when the output comes from a delete-only call (Trim*, ReplaceAll(_,_,\"\")); flags computed by helper loops are listed as not decided, except that a flag which is not a content comparison is refused when the output comes from a call that re-encodes its argument as UTF-8 (strings.Map, ToLower, ToUpper, ..., string([]rune)): such a call rewrites invalid bytes on its own; " +
 			"R3 look-ahead reads in the decoders are length-guarded (A9 shapes); R4 every registered name maps to a function and lookups are by the registered name; " +
 			"R5 multiMatch: the running value is replaced and collected together, only for a successful transformation that reported a change and under no further condition; a failing step leaves the running value untouched (also in the cached path transformArg and in the non-multiMatch executor).",
 		NotDecided: []string{
@@ -560,7 +560,6 @@ func runningValueDiscipline(v ssa.Value, from *ssa.BasicBlock, run *ssa.Phi, mul
 }
 
 func relPkgPath(p string) string { return strings.TrimPrefix(strings.TrimPrefix(p, an.ModPath), "/") }
-
 
 // reencodingCall names the standard-library call producing v when that call re-encodes its
 // whole argument as UTF-8 (invalid bytes become U+FFFD), or "".
